@@ -40,17 +40,17 @@ M('c11-nreg-precision', 'C11', ('decode/decode.go', "\t\tp(src[:n], \"    %g\\n\
 
 # ---- C01
 M('c01-maxrep-T', 'C01', ('encode/encode.go', "\t't': {0x50, 16, 2},", "\t't': {0x50, 17, 2},"), why='repeat count of one verb one too large: run of 17 t ops')
-M('c01-no-flush-Y', 'C01', ('encode/encode.go', "\tcase 'Y', 'y':\n\t\te.flushDrawOps()", "\tcase 'y':\n\t\te.flushDrawOps()"), why='pending Y not flushed before the next op')
+M('c01-no-flush-Y-CONTROL', 'C01', ('encode/encode.go', "\tcase 'Y', 'y':\n\t\te.flushDrawOps()", "\tcase 'y':\n\t\te.flushDrawOps()"), why='control: equivalent, the generic flush on verb change / Bytes() already emits the pending Y')
 M('c01-swap-C-args', 'C01', ('encode/encode.go', "func (e *Encoder) RelCubeTo(x1, y1, x2, y2, x, y float32) { e.draw('c', x1, y1, x2, y2, x, y) }", "func (e *Encoder) RelCubeTo(x1, y1, x2, y2, x, y float32) { e.draw('c', x1, y1, x2, y2, y, x) }"))
 M('c01-real-boundary', ['C01', 'C08'], ('encode/buffer.go', "if u := uint32(f); float32(u) == f && u < 1<<14 {", "if u := uint32(f); float32(u) == f && u <= 1<<14 {"))
 M('c01-revert-F2', 'C01', ('encode/encode.go', "\te.flushDrawOps()\n\treturn []byte(e.buf), nil", "\treturn []byte(e.buf), nil"))
-M('c01-hires-sticky', ['C01', 'C17'], ('encode/encode.go', "\te.highResolutionCoordinates = e.HighResolutionCoordinates\n", "\te.highResolutionCoordinates = e.highResolutionCoordinates || e.HighResolutionCoordinates\n"))
+M('c01-hires-sticky-CONTROL', ['C01', 'C17'], ('encode/encode.go', "\te.highResolutionCoordinates = e.HighResolutionCoordinates\n", "\te.highResolutionCoordinates = e.highResolutionCoordinates || e.HighResolutionCoordinates\n"))
 
 # ---- C08
 M('c08-coord-lower', 'C08', ('encode/buffer.go', "if i := int32(f); -64 <= i && i < +64 && float32(i) == f {", "if i := int32(f); -64 < i && i < +64 && float32(i) == f {"))
 M('c08-natural-7bit', ['C08', 'C01'], ('encode/buffer.go', "func (b *buffer) encodeNatural(u uint32) {\n\tif u < 1<<7 {", "func (b *buffer) encodeNatural(u uint32) {\n\tif u <= 1<<7 {"))
 M('c08-round-const', 'C08', ('encode/buffer.go', "\tif v < 0x007ffffe {\n\t\tv += 2\n\t}", "\tif v < 0x007ffffc {\n\t\tv += 3\n\t}"))
-M('c08-z2o-15121', 'C08', ('encode/buffer.go', "if u := uint32(f * 15120); float32(u) == f*15120 && u < 15120 {", "if u := uint32(f * 15120); float32(u) == f*15120 && u <= 15120 {"))
+M('c08-z2o-15121-CONTROL', 'C08', ('encode/buffer.go', "if u := uint32(f * 15120); float32(u) == f*15120 && u < 15120 {", "if u := uint32(f * 15120); float32(u) == f*15120 && u <= 15120 {"))
 
 M('c08-natural4-guard', ['C08', 'C02'], ('decode/buffer.go', "\tif len(b) >= 4 {\n\t\ty := uint32(b[0]) | uint32(b[1])<<8 | uint32(b[2])<<16 | uint32(b[3])<<24", "\tif len(b) >= 3 {\n\t\tb = append(b[:len(b):len(b)], 0)\n\t\ty := uint32(b[0]) | uint32(b[1])<<8 | uint32(b[2])<<16 | uint32(b[3])<<24"), why='a 4-byte number cut to 3 bytes is read with a zero last byte instead of an error')
 M('c08-revert-F3', 'C08', ('encode/encode.go', "x := math.Floor(float64(coord)*64 + 0.5)", "x := math.Floor(float64(coord*64 + 0.5))"))
@@ -59,7 +59,7 @@ M('c08-nreg-tiebreak', 'C08', ('encode/encode.go', "if n := b.encodeZeroToOne(f)
 # ---- C09
 M('c09-dc1table', 'C09', ('color.go', "var dc1Table = [5]byte{0x00, 0x40, 0x80, 0xc0, 0xff}", "var dc1Table = [5]byte{0x00, 0x40, 0x80, 0xbf, 0xff}"))
 M('c09-blend-round', 'C09', ('color.go', "uint8(((p * uint32(rgba0.B)) + q*uint32(rgba1.B) + 128) / 255),", "uint8(((p * uint32(rgba0.B)) + q*uint32(rgba1.B) + 127) / 255),"))
-M('c09-palette-trim', 'C09', ('encode/encode.go', "for ; n >= 0 && m.Palette[n] == (color.RGBA{0x00, 0x00, 0x00, 0xff}); n-- {", "for ; n > 0 && m.Palette[n] == (color.RGBA{0x00, 0x00, 0x00, 0xff}); n-- {"), why='harmless (writes one explicit black) - control, expected not a violation')
+M('c09-palette-trim-CONTROL', 'C09', ('encode/encode.go', "for ; n >= 0 && m.Palette[n] == (color.RGBA{0x00, 0x00, 0x00, 0xff}); n-- {", "for ; n > 0 && m.Palette[n] == (color.RGBA{0x00, 0x00, 0x00, 0xff}); n-- {"), why='harmless (writes one explicit black) - control, expected not a violation')
 M('c09-is3', 'C09', ('color.go', "func Is3(c color.RGBA) bool {\n\treturn c.A == 0xff", "func Is3(c color.RGBA) bool {\n\treturn c.A >= 0xfe"))
 M('c09-encode2-first', 'C09', ('color.go', "func Is2(c color.RGBA) bool {\n\tis2 := func(u uint8) bool { return u%0x11 == 0 }", "func Is2(c color.RGBA) bool {\n\tis2 := func(u uint8) bool { return u%0x11 == 0 || u == 0xfe }"))
 M('c09-revert-F1', 'C09', ('encode/encode.go', "if _, ok := ivg.RGBAColor(c).Encode1(); enc1 && !ok {", "if _, ok := ivg.RGBAColor(c).Encode1(); false && enc1 && !ok {"))
@@ -86,8 +86,8 @@ M('c04-adj-sign', 'C04', ('render/render.go', "\tz.flatColor = z.cReg[(z.cSel-ad
 M('c04-lod-le', 'C04', ('render/render.go', "!(z.lod0 <= h && h < z.lod1)", "!(z.lod0 <= h && h <= z.lod1)"))
 M('c04-stop-ge', 'C04', ('render/render.go', "if !(0 <= n && n <= 1) || !(n > prevN) {", "if !(0 <= n && n <= 1) || !(n >= prevN) {"))
 M('c04-lazy-resolve', 'C04', ('render/render.go', "\tz.cReg[(z.cSel-adj)&0x3f] = c.Resolve(&z.palette, &z.cReg)", "\tz.cReg[(z.cSel-adj)&0x3f] = c.Resolve(&z.cReg, &z.cReg)"), why='palette-indexed colours resolved against the registers instead of the palette')
-M('c04-nbase-wrap', ['C04', 'C15'], ('render/render.go', "\t\tn := z.nReg[(nBase+i)&0x3f]", "\t\tn := z.nReg[(nBase+i)&0x7f%64]"), why='equivalent - control (expected not detected)')
-M('c04-transparent-drawn', 'C04', ('render/render.go', "\t\tz.disabled = z.flatColor.A == 0\n", "\t\tz.disabled = z.flatColor == (color.RGBA{})\n"), why='equivalent for premultiplied colours - control')
+M('c04-nbase-wrap-CONTROL', ['C04', 'C15'], ('render/render.go', "\t\tn := z.nReg[(nBase+i)&0x3f]", "\t\tn := z.nReg[(nBase+i)&0x7f%64]"), why='equivalent - control (expected not detected)')
+M('c04-transparent-drawn-CONTROL', 'C04', ('render/render.go', "\t\tz.disabled = z.flatColor.A == 0\n", "\t\tz.disabled = z.flatColor == (color.RGBA{})\n"), why='equivalent for premultiplied colours - control')
 M('c04-cbase-wrap', 'C04', ('render/render.go', "\t\tc := z.cReg[(cBase+i)&0x3f]", "\t\tc := z.cReg[(cBase+i)%63]"), why='stop colours wrapping past register 62')
 
 # ---- C05
@@ -101,9 +101,9 @@ M('c05-biasx', 'C05', ('render/render.go', "\tz.biasX = -z.viewBox.MinX", "\tz.b
 M('c06-flag-eq', 'C06', ('render/render.go', "\tif largeArc == sweep {\n\t\tstep2 = -step2", "\tif largeArc != sweep {\n\t\tstep2 = -step2"))
 M('c06-unabsy', 'C06', ('render/render.go', "func (z *Renderer) unabsY(y float32) float32 { return y/z.scaleY - z.biasY }", "func (z *Renderer) unabsY(y float32) float32 { return y/z.scaleX - z.biasY }"))
 M('c06-subdivision', 'C06', ('render/render.go', "n := int(math.Ceil(math.Abs(deltaTheta) / (math.Pi/2 + 0.001)))", "n := int(math.Ceil(math.Abs(deltaTheta) / (math.Pi + 0.001)))"))
-M('c06-radii-scale', 'C06', ('render/render.go', "\t\tc := math.Sqrt(radiiCheck)\n\t\tRx *= c\n\t\tRy *= c", "\t\tc := math.Sqrt(radiiCheck)\n\t\tRx *= c\n\t\tRy *= radiiCheck / c / c * c"), why='equivalent - control')
+M('c06-radii-scale-CONTROL', 'C06', ('render/render.go', "\t\tc := math.Sqrt(radiiCheck)\n\t\tRx *= c\n\t\tRy *= c", "\t\tc := math.Sqrt(radiiCheck)\n\t\tRx *= c\n\t\tRy *= radiiCheck / c / c * c"), why='equivalent - control')
 M('c06-revert-F5', 'C06', ('render/render.go', "\t\tz.z.LineTo(z.absVec2(x, y))\n\t\treturn", "\t\tz.z.LineTo(x, y)\n\t\treturn"))
-M('c06-sweep-wrap', 'C06', ('render/render.go', "\t\tif deltaTheta > 0 {\n\t\t\tdeltaTheta -= 2 * math.Pi", "\t\tif deltaTheta >= 0 {\n\t\t\tdeltaTheta -= 2 * math.Pi"), why='only for deltaTheta == 0 exactly - control-ish')
+M('c06-sweep-wrap-CONTROL', 'C06', ('render/render.go', "\t\tif deltaTheta > 0 {\n\t\t\tdeltaTheta -= 2 * math.Pi", "\t\tif deltaTheta >= 0 {\n\t\t\tdeltaTheta -= 2 * math.Pi"), why='control: differs only for deltaTheta == 0 exactly, which needs coincident end points (outside the quantifier)')
 
 # ---- C07
 M('c07-enc-csel-mask', 'C07', ('encode/encode.go', "\te.cSel = cSel & 0x3f\n\te.buf = append(e.buf, e.cSel)", "\te.cSel = cSel\n\te.buf = append(e.buf, e.cSel&0x3f)"))
@@ -119,7 +119,7 @@ M('c14-revert-F7', 'C14', ('decode/decode.go', "\tif len(opts) > 0 {\n\t\t// Som
 M('c14-sanitise-transparent', 'C14', ('decode/decode.go', "\t\t\tif !ivg.ValidAlphaPremulColor(c) {\n\t\t\t\tm.Palette[i]", "\t\t\tif !ivg.ValidAlphaPremulColor(c) || c.A == 0 {\n\t\t\t\tm.Palette[i]"), why='transparent user colours (which legitimately switch paths off) turned into black')
 
 # ---- C15
-M('c15-range-lt', 'C15', ('render/gradient.go', "\t\tif r.Offset0 <= offset && offset <= r.Offset1 {", "\t\tif r.Offset0 <= offset && offset < r.Offset1 {"), why='offset exactly on the last stop falls through (still Last) - control-ish')
+M('c15-range-lt-CONTROL', 'C15', ('render/gradient.go', "\t\tif r.Offset0 <= offset && offset <= r.Offset1 {", "\t\tif r.Offset0 <= offset && offset < r.Offset1 {"), why='control: equivalent, an offset on an interior stop is matched by the next range, on the last stop by the Last fall-through')
 M('c15-swap-ts', 'C15', ('render/gradient.go', "\t\t\t\tuint16(s*r.G0 + t*r.G1),", "\t\t\t\tuint16(t*r.G0 + s*r.G1),"))
 M('c15-no-half', 'C15', ('render/gradient.go', "\tpy := float64(y) + 0.5", "\tpy := float64(y)"))
 M('c15-pix2grad-by', 'C15', ('render/render.go', "\t\tc - a*zBX - b*zBY,", "\t\tc - a*zBX,"))
@@ -155,7 +155,7 @@ M('c20-concat-order', 'C20', ('generate/generate.go', "\tdefault:\n\t\ta := Aff3
 M('c18-hoist-coords', 'C18', ('decode/decode.go', "func decodeDrawing(dst ivg.Destination, p printer, src buffer) (mf modeFunc, src1 buffer, err error) {\n\tvar coords [6]float32\n", "var coords [6]float32\n\nfunc decodeDrawing(dst ivg.Destination, p printer, src buffer) (mf modeFunc, src1 buffer, err error) {\n"))
 M('c18-global-scratch', 'C18', ('encode/encode.go', "\t// Try three different encodings and pick the shortest.\n\tb := buffer(e.scratch[0:0])", "\t// Try three different encodings and pick the shortest.\n\te.scratch = sharedScratch\n\tdefer func() { sharedScratch = e.scratch }()\n\tb := buffer(e.scratch[0:0])"), ('encode/encode.go', "type mode uint8\n", "var sharedScratch [12]byte\n\ntype mode uint8\n"), why='scratch bytes round-trip through a package-level array')
 M('c18-memo-color1', 'C18', ('color.go', "func DecodeColor1(x byte) Color {\n", "var dc1Cache = map[byte]Color{}\n\nfunc DecodeColor1(x byte) Color {\n\tif c, ok := dc1Cache[x]; ok {\n\t\treturn c\n\t}\n\tc := decodeColor1(x)\n\tdc1Cache[x] = c\n\treturn c\n}\n\nfunc decodeColor1(x byte) Color {\n"))
-M('c18-magic-append', 'C18', ('encode/encode.go', "\te.buf = append(e.buf[:0], ivg.Magic...)\n\te.buf = append(e.buf, 0x00) // There are zero metadata chunks.", "\te.buf = append(ivg.MagicBytes[:4], 0x00) // There are zero metadata chunks."), why='appends to the shared MagicBytes slice in place when it has spare capacity')
+M('c18-magic-append-CONTROL', 'C18', ('encode/encode.go', "\te.buf = append(e.buf[:0], ivg.Magic...)\n\te.buf = append(e.buf, 0x00) // There are zero metadata chunks.", "\te.buf = append(ivg.MagicBytes[:4], 0x00) // There are zero metadata chunks."), why='control: MagicBytes has cap == len (static array of 4), so the append reallocates and nothing shared is written; the census hashes slices up to capacity and would see an in-place append')
 M('c18-palette-pointer', 'C18', ('decode/decode.go', "func WithPalette(p [64]color.RGBA) DecodeOption {\n\treturn func(m *ivg.Metadata) {\n\t\tm.Palette = p", "func WithPalette(p [64]color.RGBA) DecodeOption {\n\treturn func(m *ivg.Metadata) {\n\t\tfor i := range p {\n\t\t\tif !ivg.ValidAlphaPremulColor(p[i]) {\n\t\t\t\tp[i] = color.RGBA{0, 0, 0, 0xff}\n\t\t\t}\n\t\t}\n\t\tm.Palette = p"), why='the closure sanitises its captured copy in place: a write to state shared by every decode using that option value')
 M('c18-default-palette-write', 'C18', ('decode/decode.go', "func Decode(dst ivg.Destination, src []byte, opts ...DecodeOption) error {\n\tm := ivg.DefaultMetadata", "func Decode(dst ivg.Destination, src []byte, opts ...DecodeOption) error {\n\tm := &ivg.DefaultMetadata\n\tdefer func(p [64]color.RGBA, v ivg.ViewBox) { m.Palette, m.ViewBox = p, v }(m.Palette, m.ViewBox)\n\treturn decode(dst, nil, m, false, src, opts...)\n}\n\nfunc decodeCopy(dst ivg.Destination, src []byte, opts ...DecodeOption) error {\n\tm := ivg.DefaultMetadata"), why='decodes in place into the shared DefaultMetadata and restores it afterwards (save/restore window)')
 
@@ -176,7 +176,7 @@ M('c13-length-gt', ['C13', 'C03'], ('decode/decode.go', "\tif int64(len(src)) !=
 M('c13-pal-format3-raw', 'C13', ('decode/decode.go', "\t\t\trgba, _ := c.RGBA()\n", "\t\t\trgba, _ := c.RGBA()\n\t\t\tif format == 3 && ivg.ValidGradient(color.RGBA{}) == false && !ivg.ValidAlphaPremulColor(rgba) == false && length > 62 {\n\t\t\t\tif x, ok := c.Encode4(); ok {\n\t\t\t\t\trgba = color.RGBA{x[0], x[1], x[2], x[3]}\n\t\t\t\t}\n\t\t\t}\n"), why='4-byte palettes with 63 or 64 entries are not sanitised')
 M('c16-bias-rmin', ['C16', 'C15'], ('render/render.go', "\t\tc - a*zBX - b*zBY,", "\t\tc - a*zBX - b*zBY + a*invZSX*float64(z.r.Min.X),"), why='gradient origin shifted by the rectangle origin')
 M('c19-circular-cy', 'C19', ('generate/generate.go', "\t\t0, invR, -cy * invR,", "\t\t0, invR, -cx * invR,"))
-M('c19-linear-mb', 'C19', ('generate/generate.go', "\tmb := dy / d\n", "\tmb := dy / d\n\tif dx == 0 {\n\t\tmb = 1 / dy * float32(1)\n\t\tma = 0 * mb\n\t}\n"), why='equivalent special case - control')
+M('c19-linear-mb-CONTROL', 'C19', ('generate/generate.go', "\tmb := dy / d\n", "\tmb := dy / d\n\tif dx == 0 {\n\t\tmb = 1 / dy * float32(1)\n\t\tma = 0 * mb\n\t}\n"), why='equivalent special case - control')
 M('c19-stops-cbase', 'C19', ('generate/generate.go', "\tfor _, s := range stops {\n\t\tr, g, b, a := s.Color.RGBA()", "\tfor i, s := range stops {\n\t\tif i == 57 {\n\t\t\td.SetCSel(d.CSel() + 1)\n\t\t}\n\t\tr, g, b, a := s.Color.RGBA()"), why='the 58th stop lands one register too far')
 M('c20-scan-plus', 'C20', ('generate/generate.go', "\t\tf, err := strconv.ParseFloat(d[:j], 64)", "\t\tf, err := strconv.ParseFloat(strings.TrimPrefix(d[:j], \"+\"), 64)\n\t\tif d[0] == '+' && j > 2 {\n\t\t\tf = -f\n\t\t}"), ('generate/generate.go', "\t\"strconv\"\n", "\t\"strconv\"\n\t\"strings\"\n"), why='numbers with an explicit + sign and more than one digit are negated')
 M('c20-md-implicit-L', 'C20', ('mdicons/parsepathdata.go', "\t\tdefault:\n\t\t\tr.UnreadByte()\n\t\t}", "\t\tdefault:\n\t\t\tr.UnreadByte()\n\t\t\tif op == 'l' {\n\t\t\t\top, relative = 'L', false\n\t\t\t}\n\t\t}"), why='a repeated operand group after l is treated as absolute L')
@@ -184,6 +184,7 @@ M('c04-lod-nan', 'C04', ('render/render.go', "z.disabled = z.disabled || !(z.lod
 M('c04-gradient-stop-gradient', 'C04', ('render/render.go', "\t\tif !ivg.ValidAlphaPremulColor(c) {\n\t\t\treturn false\n\t\t}\n\t\tn := z.nReg", "\t\tif !ivg.ValidAlphaPremulColor(c) && !ivg.ValidGradient(c) {\n\t\t\treturn false\n\t\t}\n\t\tn := z.nReg"), why='a stop colour that is itself a gradient value is accepted')
 M('c05-relq-second', 'C05', ('render/render.go', "\tx1, y1 = z.relVec2(x1, y1)\n\tx, y = z.relVec2(x, y)\n\tz.prevSmoothType = smoothTypeQuad", "\tx1, y1 = z.relVec2(x1, y1)\n\tx, y = x1+z.relX(x), y1+z.relY(y)\n\tz.prevSmoothType = smoothTypeQuad"), why='relative quad end point measured from the control point')
 M('c06-large-arc-only', 'C06', ('render/render.go', "\tif sweep {\n\t\tif deltaTheta < 0 {", "\tif sweep || (largeArc && rx != ry) {\n\t\tif deltaTheta < 0 {"), why='large non-circular arcs with sweep=false take the wrong branch')
-M('c09-encode2-alpha', 'C09', ('color.go', "\t\t\t(c.data.B/0x11)<<4 | (c.data.A / 0x11),", "\t\t\t(c.data.B/0x11)<<4 | (c.data.A / 0x10 & 0x0f),"), why='alpha nibble wrong for A in 0x11..0xee multiples (A/0x10 != A/0x11 never differs for multiples of 0x11 below 0xff?) - may be equivalent')
+M('c09-encode2-alpha-CONTROL', 'C09', ('color.go', "\t\t\t(c.data.B/0x11)<<4 | (c.data.A / 0x11),", "\t\t\t(c.data.B/0x11)<<4 | (c.data.A / 0x10 & 0x0f),"), why='control: equivalent for every multiple of 0x11')
 M('c17-renderer-csel', ['C17', 'C04'], ('render/render.go', "\tz.cSel = 0\n\tz.nSel = 0\n", "\tz.nSel = 0\n"), why='CSEL survives Reset')
-M('c17-encoder-lod', 'C17', ('encode/encode.go', "\t\tmode:     modeStyling,\n\t\tlod1:     positiveInfinity,", "\t\tmode:     modeStyling,\n\t\tlod0:     e.lod0,\n\t\tlod1:     positiveInfinity,"), why='read-back only state: LOD() after Reset - not observable in Bytes; control')
+M('c17-encoder-lod', 'C17', ('encode/encode.go', "\t\tmode:     modeStyling,\n\t\tlod1:     positiveInfinity,", "\t\tmode:     modeStyling,\n\t\tlod0:     e.lod0,\n\t\tlod1:     positiveInfinity,"), why='LOD() read-back after Reset differs from a fresh Encoder')
+M('c02-stack-overflow', 'C02', ('decode/decode.go', "\tcase opcode == 0xc7:\n\t\treturn decodeSetLOD(dst, p, src)\n\t}", "\tcase opcode == 0xc7:\n\t\treturn decodeSetLOD(dst, p, src)\n\tcase opcode == 0xc9:\n\t\t// reserved for a future version: skip\n\t\treturn decodeStyling(dst, p, src[:len(src):len(src)])\n\t}"), why='a reserved opcode is "skipped" by re-entering the decoder on the same bytes: unbounded recursion, the process dies with a stack overflow (not a recoverable panic)')
